@@ -125,6 +125,9 @@ func (s *ReceivePackSession) negotiate(updates map[string]*payload.Update) (stat
 		return nil, nil
 	} else {
 		for _, sum := range rpr.TableACKs {
+			if sum == nil {
+				return nil, fmt.Errorf("error parsing receive pack response: null entry in tableACKs")
+			}
 			delete(s.tablesToSend, string((*sum)[:]))
 		}
 		if s.candidateTables.Len() == 0 {
